@@ -7,6 +7,7 @@ import (
 	"io"
 	"path/filepath"
 	"reflect"
+	"sort"
 	"strconv"
 	"strings"
 )
@@ -492,7 +493,7 @@ func (n *ForNode) renderForLoop(w io.Writer, ctx *RenderContext, seq interface{}
 		}
 
 	case reflect.Map:
-		keys := val.MapKeys()
+		keys := sortedMapKeys(val)
 		for i, key := range keys {
 			// Set the loop variables
 			loopVars["loop"].(map[string]interface{})["index"] = i + 1
@@ -1613,4 +1614,31 @@ func (n *PrintNode) Render(w io.Writer, ctx *RenderContext) error {
 // Release returns a PrintNode to the pool
 func (n *PrintNode) Release() {
 	ReleasePrintNode(n)
+}
+
+// sortedMapKeys returns the keys of a map in an order that depends only on the keys:
+// numeric keys ascending, everything else by its printed form
+func sortedMapKeys(m reflect.Value) []reflect.Value {
+	keys := m.MapKeys()
+	sort.SliceStable(keys, func(i, j int) bool {
+		a, b := keys[i], keys[j]
+		for a.Kind() == reflect.Interface && !a.IsNil() {
+			a = a.Elem()
+		}
+		for b.Kind() == reflect.Interface && !b.IsNil() {
+			b = b.Elem()
+		}
+		switch {
+		case a.CanInt() && b.CanInt():
+			return a.Int() < b.Int()
+		case a.CanUint() && b.CanUint():
+			return a.Uint() < b.Uint()
+		case a.CanFloat() && b.CanFloat():
+			return a.Float() < b.Float()
+		case a.Kind() == reflect.String && b.Kind() == reflect.String:
+			return a.String() < b.String()
+		}
+		return fmt.Sprint(keys[i].Interface()) < fmt.Sprint(keys[j].Interface())
+	})
+	return keys
 }
